@@ -284,6 +284,21 @@ def g_points(ctx, rng, i):
         ac, bc = a.astype(complex) + 1j * gen.coords(rng, (n,), 2, "int"), b.astype(complex)
         if X.rank([X.vec(ac), X.vec(bc)]) == 2:
             _try(g.crossratio, *[g.Point(ac + (t if t != "inf" else 0) * bc) if t != "inf" else g.Point(bc) for t in ts])
+    # complex parameters on a complex line (CP1, plane, space): the cross ratio is not real
+    if i % 2 == 1:
+        ac = a.astype(complex) + 1j * gen.coords(rng, (n,), 2, "int")
+        bc = b.astype(complex) + 1j * gen.coords(rng, (n,), 2, "int")
+        if X.rank([X.vec(ac), X.vec(bc)]) == 2:
+            zs = set()
+            while len(zs) < 4:
+                zs.add(complex(int(rng.integers(-3, 4)), int(rng.integers(-3, 4))))
+            zs = sorted(zs, key=lambda z: (z.real, z.imag))
+            rng.shuffle(zs)
+            Pc = [g.Point((ac + z * bc) * gen.pick(rng, [1, 1j, -1, 1 + 1j])) for z in zs]
+            _try(g.crossratio, *Pc)
+            _try(g.crossratio, Pc[1], Pc[0], Pc[3], Pc[2])
+            if n >= 3:
+                _try(g.crossratio, *[g.PointCollection(np.stack([p.array, q.array])) for p, q in zip(Pc, Pc[::-1])])
     # non-collinear quadruple: must raise (2D and 3D)
     if n >= 3:
         q = gen.nonzero_vec(rng, n, 4)
